@@ -362,7 +362,21 @@ def _replay_once(data):
         r2 = W.evaluate(world, seeds, ss, graph, mode="run")
         print("dr.run (after the late registration):    ", plain(r2.text))
         bad |= plain(r2.text) != plain(ref.text)
-    for name, fn in (("group-graph", lambda b: dr.run(world.group_graph(list(graph)), broker=b)),
+    tcomps = [world.comps[t] for t in case["targets"]]
+
+    def entry_serial(b):
+        out = insights._run(b, graph=g2(), root=None, context=Ctx, parallel=False)
+        if out is not b:
+            raise AssertionError("_run(parallel=False) returned %r instead of the broker" % (type(out),))
+        del b.instances[Ctx]
+    built = []
+    if case.get("dropped") is None:
+        built = [("run(list of components)", lambda b: dr.run(list(tcomps), broker=b)),
+                 ("run(set of components)", lambda b: dr.run(set(tcomps), broker=b))]
+        if len(tcomps) == 1:
+            built.append(("run(component)", lambda b: dr.run(tcomps[0], broker=b)))
+    for name, fn in tuple(built) + (("_run(serial)", entry_serial),
+                     ("group-graph", lambda b: dr.run(world.group_graph(list(graph)), broker=b)),
                      ("run_incremental", lambda b: list(dr.run_incremental(g2(), b))),
                      ("run_all/defer", lambda b: dr.run_all(g2(), b, DeferPool(random.Random(0)))),
                      ("run_all/threads4", threads), ("_run(parallel)", entry)):
